@@ -453,6 +453,13 @@ func report(env Env, p Property, ph Phase, seed uint64, fv *FoundViolation, know
 		fmt.Fprintln(os.Stderr, err)
 		return "", ExitInfra
 	}
+	if class != "" && class != fv.V.Class {
+		// The scenario shows a violation in a fresh process too, only of
+		// another class (a race report may come before, or instead of, a value
+		// oracle on the same defect): what reproduces is what gets reported.
+		fmt.Printf("  in a fresh process the scenario shows %s instead of %s; reporting that\n", class, fv.V.Class)
+		fv = &FoundViolation{Run: fv.Run, K: fv.K, N: fv.N, V: Violation{Class: class, Sig: sig, Detail: detail}, Scenario: fv.Scenario}
+	}
 	if class != fv.V.Class {
 		// For race reports allow several attempts (bounded shadow memory).
 		okc := false
